@@ -277,3 +277,58 @@ def rule_dr3(ctx, min_sites=4):
                         "a factor 180/pi", instance=inst)
     r.require_count("DR3", "circle_parameters consumers feeding arcs", n,
                     min_sites)
+
+
+DR4_EXEMPT = {"draw_nonaff_polygon": "handles polygons leaving the standard "
+                                     "chart 0 by construction "
+                                     "(in_standard_chart tests coordinate 0)"}
+
+
+def rule_dr4(ctx, min_sites=4):
+    r = ctx.r
+    r.rule("DR4", "in ProjectiveDrawing every conversion to affine "
+                  "coordinates (.affine_coords / .endpoint_affine_coords) "
+                  "passes chart_index=self.chart_index: points, segments "
+                  "and polygons are placed in the drawing's chart")
+    c = ctx.p.get_class(DRAW, "ProjectiveDrawing")
+    n = 0
+    for mname, f in sorted(c.methods.items()):
+        if not mname.startswith("draw_"):
+            continue
+        for x in ast.walk(f.node):
+            if isinstance(x, ast.Call) and isinstance(x.func, ast.Attribute) \
+                    and x.func.attr in ("affine_coords",
+                                        "endpoint_affine_coords"):
+                kw = {k.arg: dotted(k.value) for k in x.keywords}
+                inst = f"ProjectiveDrawing.{mname}:{dotted(x.func)[:40]}"
+                if mname in DR4_EXEMPT:
+                    r.note("DR4", loc(f, x), dotted(x)[:80],
+                           "exempt: " + DR4_EXEMPT[mname])
+                    continue
+                n += 1
+                r.analysed(f)
+                if kw.get("chart_index") == "self.chart_index":
+                    r.ok("DR4", inst, loc(f, x), dotted(x)[:100],
+                         "drawing's chart is forwarded")
+                else:
+                    r.violation(
+                        "DR4", f"{f.fq}|{dotted(x.func)}", loc(f, x),
+                        dotted(x)[:140],
+                        "affine coordinates are taken in chart "
+                        f"{kw.get('chart_index', '0 (the default)')} instead "
+                        "of the drawing's chart_index: in a drawing created "
+                        "with chart_index != 0 this kind of object is placed "
+                        "at its chart-0 coordinates and no longer lines up "
+                        "with the others", instance=inst)
+    r.require_count("DR4", "affine conversions in ProjectiveDrawing", n,
+                    min_sites)
+    c3 = ctx.p.get_class(DRAW, "ProjectiveDrawing3D")
+    for mname, f in sorted(c3.methods.items()):
+        for x in ast.walk(f.node):
+            if isinstance(x, ast.Call) and isinstance(x.func, ast.Attribute) \
+                    and x.func.attr == "affine_coords" \
+                    and not any(k.arg == "chart_index" for k in x.keywords):
+                r.note("DR4", loc(f, x), dotted(x)[:80],
+                       "ProjectiveDrawing3D ignores its chart_index here "
+                       "(3-dimensional drawings are outside the property's "
+                       "statement; latent)")
